@@ -599,7 +599,7 @@ func (c *ctl) postStepOracle(t *thread, from, status string) {
 }
 
 type act struct {
-	kind string // nR nD r f xB xF
+	kind string // nR nD r f xB xF xR
 	a, b int
 	tok  string
 }
@@ -608,7 +608,7 @@ func parseActs(toks []string) ([]act, error) {
 	var out []act
 	for _, tok := range toks {
 		switch {
-		case strings.HasPrefix(tok, "nR"), strings.HasPrefix(tok, "xB"), strings.HasPrefix(tok, "xF"):
+		case strings.HasPrefix(tok, "nR"), strings.HasPrefix(tok, "xB"), strings.HasPrefix(tok, "xF"), strings.HasPrefix(tok, "xR"):
 			p := strings.Split(tok[2:], ".")
 			if len(p) != 2 {
 				return nil, fmt.Errorf("bad act %s", tok)
@@ -665,7 +665,7 @@ func runSchedule(line string, base string, idx int, backups bool) (string, []vh.
 	seen := map[[2]int]bool{}
 	var ds [][2]int
 	for _, a := range acts {
-		if (a.kind == "nR" || a.kind == "xB" || a.kind == "xF") && !seen[[2]int{a.a, a.b}] {
+		if (a.kind == "nR" || a.kind == "xB" || a.kind == "xF" || a.kind == "xR") && !seen[[2]int{a.a, a.b}] {
 			seen[[2]int{a.a, a.b}] = true
 			ds = append(ds, [2]int{a.a, a.b})
 		}
@@ -683,9 +683,9 @@ func runSchedule(line string, base string, idx int, backups bool) (string, []vh.
 		case "nD":
 			t := c.newDel(a.a)
 			st = c.await(t, stepTimeout)
-		case "xB", "xF":
+		case "xB", "xF", "xR":
 			// environment acts (the model enables xB only while no handle is open on the file, xF only
-			// while the directory does not exist)
+			// while the directory does not exist, xR only while the file is garbage)
 			dir := shardDir(root, a.a, a.b)
 			var err error
 			switch {
@@ -693,6 +693,13 @@ func runSchedule(line string, base string, idx int, backups bool) (string, []vh.
 				err = errors.New("database file is open")
 			case a.kind == "xB":
 				err = corruptShard(dir, uint64(idx)*31+uint64(a.a)*7+uint64(a.b))
+			case a.kind == "xR":
+				// the failure was transient: the garbage goes away, the next load creates / opens a database
+				if !isGarbageFile(filepath.Join(dir, "sharddb.bbolt")) {
+					err = errors.New("database file is not garbage")
+				} else {
+					err = os.Remove(filepath.Join(dir, "sharddb.bbolt"))
+				}
 			default:
 				if _, serr := os.Lstat(dir); serr == nil {
 					err = errors.New("path exists")
@@ -870,7 +877,7 @@ func runSchedule(line string, base string, idx int, backups bool) (string, []vh.
 				}()
 				select {
 				case err := <-res:
-					if err != nil && !strings.Contains(err.Error(), "could not load shard") {
+					if err != nil && !strings.Contains(err.Error(), "could not load shard") && !strings.Contains(err.Error(), "already closed") {
 						c.fail("clean-error", fmt.Sprintf("a request on shard %d.%d, which cannot be loaded, failed with an unexpected error: %v", d[0], d[1], err))
 					}
 				case <-time.After(5 * time.Second):
@@ -1199,7 +1206,7 @@ func stressWorker(seed uint64, dur time.Duration, timeout int) {
 					atomic.AddInt64(&rep.LoadErrs, 1)
 					if err == nil || ran {
 						addFail(fmt.Sprintf("clean-error: a request on a shard that cannot be loaded (cbad/s%d) ran its callback (err=%v)", sh, err))
-					} else if !strings.Contains(err.Error(), "could not load shard") {
+					} else if !strings.Contains(err.Error(), "could not load shard") && !strings.Contains(err.Error(), "already closed") {
 						addFail("unexpected error: " + err.Error())
 					}
 				} else if r.Intn(10) == 0 {
@@ -1402,14 +1409,14 @@ func main() {
 	blocked, longest := 0, 0
 	for i, l := range lines {
 		flags := ""
-		for _, fl := range [][2]string{{"=blocked_rlock", "R"}, {"=blocked_wlock", "W"}, {"=ret_err", "E"}, {" nD", "D"}, {" f", "T"}, {"dl=1", "X"}, {" xB", "B"}, {" xF", "F"}} {
+		for _, fl := range [][2]string{{"=blocked_rlock", "R"}, {"=blocked_wlock", "W"}, {"=ret_err", "E"}, {" nD", "D"}, {" f", "T"}, {"dl=1", "X"}, {" xB", "B"}, {" xF", "F"}, {" xR", "P"}} {
 			if strings.Contains(traces[i], fl[0]) || strings.Contains(l, fl[0]) {
 				flags += fl[1]
 			}
 		}
 		// R: an RLock queued behind a writer, W: a Lock waited for readers, E: a request got the clean
 		// error, D: a deletion ran, T: an idle timer fired, X: deadlock, B: the database file of a shard was made
-		// garbage (NewShard fails), F: a non-directory was put at a shard path (MkdirAll fails)
+		// garbage (NewShard fails), F: a non-directory was put at a shard path (MkdirAll fails), P: a garbage file was repaired
 		kind := "sched[" + flags + "]"
 		if strings.Contains(traces[i], "=blocked_rlock") || strings.Contains(traces[i], "=blocked_wlock") {
 			blocked++
